@@ -19,7 +19,10 @@ BOUNDED, NOT PROVED.  What is enumerated (see the 'lattice' field of the output)
       A second, separately reported clause configures A by an in-place edit of an attribute of
       A's own entity object (iwc = InitialWaterContent(); iwc.value[0] = 'WP') and then runs a
       B that uses the default-constructed entity; this exposes default-argument objects that
-      are shared between instances.
+      are shared between instances.  A third clause builds A from the same configuration with
+      keyword overrides of built-in crop / soil parameters (Crop(name, CCx=..), Soil(name, cn=..))
+      and then runs the plain configuration; this exposes built-in parameter tables that are
+      written through.
   (b) process / hash-seed independence.  Every configuration is run alone in fresh
       interpreters with different PYTHONHASHSEED values; all hashes must agree.
 
@@ -152,6 +155,14 @@ def do_step(step, cfgs, dumpdir=None, pos=0):
             gw.values.append(2.0)
             m = build(cfg)
             m.groundwater = gw
+            m.run_model(till_termination=True)
+            return res
+        if kind == "override":
+            # A = the same configuration with keyword overrides of built-in crop / soil parameters (user-level action); history step only
+            c2 = dict(cfg)
+            kw = dict(cfg.get("crop_kw", {})); kw.update({"CCx": 0.55, "HI0": 0.30, "WP": 20.0}); c2["crop_kw"] = kw
+            skw = dict(cfg.get("soil_kw", {})); skw.update({"cn": 85, "rew": 4.0}); c2["soil_kw"] = skw
+            m = build(c2)
             m.run_model(till_termination=True)
             return res
         m = build(cfg)
@@ -434,6 +445,9 @@ def main():
         for i in default_gw[: (2 if quick else 6)]:
             other = rng.choice(valid)
             edit_hists.append([{"cfg": other, "kind": "edit_gw"}, {"cfg": i, "kind": "run"}])
+        # override-clause histories: A built with keyword overrides of built-in parameters, then the plain configuration
+        for i in valid[: (3 if quick else 10)]:
+            edit_hists.append([{"cfg": i, "kind": "override"}, {"cfg": i, "kind": "run"}])
         all_h = [("hist", h) for h in hists] + [("edit", h) for h in edit_hists]
         if os.environ.get("C10_DEBUG_DUMP"):
             json.dump({"cfgs": cfgs, "hists": all_h}, open(os.environ["C10_DEBUG_DUMP"], "w"))
@@ -480,7 +494,12 @@ def main():
                     exceptions.append("UNCONFIRMED difference (not reproduced when both sides were re-run back to back; "
                                       "source tree edited during the run or transient): history %d step %d cfg %s" % (hi, pos, sig(pool[i])))
                     continue
-                if typ == "edit":
+                if typ == "edit" and steps[0]["kind"] == "override":
+                    signature = "builtin-parameters-written-through|%s" % pool[i]["crop"]
+                    clause = ("instances are isolated: a model built with keyword overrides of built-in crop / soil parameters must not change a later "
+                              "model built from the plain built-ins")
+                    repro = "Crop(%r, CCx=0.55, HI0=0.30, WP=20.0), Soil(%r, cn=85, rew=4.0) run first; then B=%s" % (pool[i]["crop"], pool[i]["soil"], json.dumps(pool[i]))
+                elif typ == "edit":
                     ek = steps[0]["kind"]
                     signature = "default-arg-alias|%s" % ("InitialWaterContent.value" if ek == "edit_iwc" else "GroundWater.dates/values")
                     clause = ("instances are isolated: configuring A by an in-place edit of an attribute of A's own entity "
